@@ -25,6 +25,41 @@ PROPS = {
         "unreached": [],
         "assumptions": [],
     },
+    "C09": {
+        "level": "proof",
+        "units": [
+            {"kind": "kani-incrate", "harnesses": [
+                {"harness": RT + "c09_allocate", "fn": "src/runtime.rs :: Runtime::allocate"},
+                {"harness": RT + "c09_deallocate", "fn": "src/runtime.rs :: Runtime::deallocate"},
+                {"harness": RT + "c09_allocate_deallocate_balance", "fn": "src/runtime.rs :: Runtime::{allocate, deallocate}"},
+                {"harness": RT + "c09_can_allocate_by", "fn": "src/runtime.rs :: Runtime::can_allocate_by"},
+                {"harness": RT + "c09_allocate_monotone_in_limit", "fn": "src/runtime.rs :: Runtime::allocate"},
+            ]},
+        ],
+        "unreached": [],
+        "assumptions": [],
+    },
+    "C11": {
+        "level": "proof",
+        "units": [
+            {"kind": "kani-incrate", "harnesses": [
+                {"harness": RT + "c11_default_table", "fn": "src/builtin/builtin_permissions.rs :: NOW, PRINT, PRINT_DEBUG, RANDOM, REGEX, SLEEP"},
+            ]},
+            {"kind": "verus", "unit": "perm"},
+        ],
+        "unreached": [],
+        "assumptions": [],
+    },
+    "C13": {
+        "level": "proof",
+        "units": [
+            {"kind": "kani-incrate", "harnesses": [
+                {"harness": RT + "c13_checked_float_ctor", "fn": "src/xvalue.rs :: XValue::float"},
+            ]},
+        ],
+        "unreached": [],
+        "assumptions": [],
+    },
     "C14": {
         "level": "proof",
         "units": [
@@ -66,6 +101,24 @@ CLAIMS = {
         "technique": "contract-based deductive verification: Kani (CBMC) loop-free full-domain harnesses in contract form on the real Runtime limit primitives",
         "text": "Each limit primitive of src/runtime.rs is checked against its one-step contract for every value of the counter and of the limit (loop-free harness over full-width symbolic scalars = complete proof of that function's contract); the history statement is the induction over the step contract.",
         "note": "Decides the counters and their reset only; that every call path goes through them is argued from visibility, not proved. Trusted: Kani/CBMC, the in-crate build substitutions.",
+    },
+    "C09": {
+        "engine": "kani",
+        "technique": "contract-based deductive verification: Kani (CBMC) loop-free full-domain harnesses in contract form on Runtime::{allocate, deallocate, can_allocate_by}",
+        "text": "The accounting primitives are proved against one-step contracts for every limit, accounted size and request: Ok adds exactly the size and stays within the limit, Err leaves the total unchanged, deallocate returns exactly the size, allocate-then-drop is the identity, and raising the limit never turns Ok into Err.",
+        "note": "Decides the primitives only: the size model of values (dyn_size impls), that every container goes through ManagedXValue::new, and the natives' pre-flight checks are unreached. Trusted: Kani/CBMC, in-crate build substitutions.",
+    },
+    "C11": {
+        "engine": "vx+verus",
+        "technique": "contract-based deductive verification: Verus contracts on the real text of PermissionSet::{get,allow,forbid} and RuntimeLimits::check_permission; Kani for the table of defaults",
+        "text": "Permission lookup (stored value else per-permission default), allow/forbid (exactly that key) and check_permission (Ok iff allowed, otherwise the violation names the permission) are proved for all permission sets; the six builtin permissions have the documented defaults and distinct ids.",
+        "note": "std HashMap by vstd's specification plus three axioms for &'static str keys. Effect-site guards in the natives are decided by the V-guard unit when present; otherwise unreached.",
+    },
+    "C13": {
+        "engine": "kani",
+        "technique": "contract-based deductive verification: Kani harness over all 2^64 bit patterns on the real checked float constructor; constructor-site scan",
+        "text": "XValue::float is proved for every f64 bit pattern to build a Float only from a finite operand (payload unchanged) and an error value otherwise.",
+        "note": "Decides the checked constructor; the sites that build XValue::Float directly are enumerated by the scan unit when present.",
     },
     "C14": {
         "engine": "vx+verus",
